@@ -369,6 +369,10 @@ def r8_worklist_pushes_elements(chk: Check) -> None:
                 base = m["X"] if m else it
                 if isinstance(base, ast.Name):
                     containers.add(base.id)
+                    # `pairs = list(item.items())` / `list(enumerate(item))`: the real container behind the local
+                    for _s, v_ in assignments_to(fn.node, base.id):
+                        if v_ is not None:
+                            containers |= {x.id for x in ast.walk(v_) if isinstance(x, ast.Name) and x.id not in ("list", "enumerate", "tuple", "dict", "sorted")}
             n += 1
             construct = f"{fn.name}: `{unparse(c, 40)}` pushes an element"
             if pushed in containers:
